@@ -119,7 +119,19 @@ let run_dpn () =
   | (Ok h, tr) -> out "OK "; print_pg h; out " EST "; print_answers (to_graph h); print_trace tr
   | (Err e, tr) -> out ("ERR " ^ err_name e); print_trace tr
 
+(* GIN <graph> tau gamma  (one? k ids)  (one? k ids)  k draws.. : get_infected_nodes on scripted expovariate draws *)
+let run_gin () =
+  let g = read_graph () in
+  let tau = nq () in let gamma = nq () in
+  let src () = let one = nbool () in let l = nlist nn in if one then One (List.hd l) else Many l in
+  let inf = src () in let rc = src () in
+  let ds = nlist nq in
+  match exec_nodes (get_infected_nodes g tau gamma inf rc) ds [] with
+  | (Ok r, tr) -> out ("OK " ^ snodes r); print_trace tr
+  | (Err e, tr) -> out ("ERR " ^ err_name e); print_trace tr
+
 let () = main (function
+    | "GIN" -> run_gin ()
     | "COMP" -> run_comp ()
     | "SCC" -> run_scc ()
     | "EST" -> run_est ()
